@@ -214,7 +214,7 @@ func timedOut(o *harness.StreamObs) bool {
 // A message starting with "INCONCLUSIVE" is an infrastructure problem.
 func Common(c *Case, obs *harness.Obs) string {
 	if obs.Err != "" {
-		return "INCONCLUSIVE harness could not run the case: " + obs.Err
+		return "INCONCLUSIVE: harness could not run the case: " + obs.Err
 	}
 	if obs.Panic != "" {
 		return "panic in generated client code: " + firstLines(obs.Panic, 24)
@@ -420,7 +420,7 @@ func ServerToClient(d *m.Design, s *m.Service, meth *m.Method, c *Case, obs *har
 // skipped is true when the mutant cannot be expressed through the Go API.
 func Rejected(d *m.Design, meth *m.Method, c *Case, obs *harness.Obs) (msg string, skipped bool) {
 	if obs.Err != "" {
-		return "INCONCLUSIVE harness could not run the case: " + obs.Err, false
+		return "INCONCLUSIVE: harness could not run the case: " + obs.Err, false
 	}
 	if obs.Panic != "" {
 		return "panic in generated client code: " + firstLines(obs.Panic, 24), false
